@@ -60,3 +60,14 @@ Definition pget (t : pmap) (w : nat) : option nat := nth w t None.
 Inductive anc (t : pmap) : nat -> nat -> Prop :=
 | anc_refl : forall a, anc t a a
 | anc_up : forall a w p, pget t w = Some p -> anc t a p -> anc t a w.
+
+(* ---- rose trees with node labels (shape of ppci's DomTreeNode objects) *)
+Inductive dtree := DNode : nat -> list dtree -> dtree.
+
+Fixpoint labels (tr : dtree) : list nat :=
+  match tr with DNode x cs => x :: flat_map labels cs end.
+
+(* [tanc tr b a]: the node labelled b is an ancestor-or-self of the node labelled a in tr *)
+Inductive tanc : dtree -> nat -> nat -> Prop :=
+| tanc_root : forall x cs a, In a (labels (DNode x cs)) -> tanc (DNode x cs) x a
+| tanc_child : forall x cs c b a, In c cs -> tanc c b a -> tanc (DNode x cs) b a.
